@@ -160,6 +160,9 @@ def load_findings():
     return json.load(open(path))['findings']
 
 
+CURRENT_TIER = 'quick'
+
+
 class Verdict:
     """Collects violations for one property, separates listed known findings, prints the interface lines."""
     def __init__(self, pid):
@@ -180,6 +183,19 @@ class Verdict:
 
     def finish(self):
         """Prints KNOWN-FINDING / VIOLATION lines; returns exit code."""
+        # a listed finding suppresses what was recorded, not a different defect that shows under the same key: every entry carries
+        # the largest number of occurrences seen per run on the unchanged tree (`max_seen`, per tier); far more than that
+        # (4 x + 8 quick, 6 x + 20 thorough) is reported as a violation of its own
+        for key, descs in sorted(self.known_hits.items()):
+            seen = (self.known[key].get('max_seen') or {}).get(CURRENT_TIER)
+            if seen is None:
+                continue
+            bound = 4 * seen + 8 if CURRENT_TIER == 'quick' else 6 * seen + 20
+            bound = (self.known[key].get('alarm_above') or {}).get(CURRENT_TIER, bound)
+            if len(descs) > bound:
+                self.violations.append((key + '/surge', 'the recorded finding %s showed %d times in this run; on the unchanged tree it shows at most %d times per %s run '
+                                        '(alarm above %d): something else fails under the same key, e.g. %s' % (key, len(descs), seen, CURRENT_TIER, bound, descs[-1][:160]),
+                                        {'key': key, 'occurrences': len(descs), 'recorded_max': seen, 'examples': descs[:5]}))
         for key, descs in sorted(self.known_hits.items()):
             print('KNOWN-FINDING: property=%s %s (%d occurrence(s); e.g. %s)' % (self.pid, key, len(descs), descs[0][:200]))
         if self.violations or self.known_hits:
